@@ -585,6 +585,65 @@ Section Counting.
     inversion HW; subst. assert (HI' := cinv_step s e Hk HI H1).
     constructor; [destruct HI'; lia | apply IH; auto].
   Qed.
+  (** *** at or over the limit nothing new gets past the check *)
+  Definition potential (s : sys) : N := cntf (s_ctrl s) + N.of_nat (cnt P (s_threads s)).
+
+  Lemma potential_step : forall s e, Forall defer_wf (s_threads s) -> L <= cntf (s_ctrl s) ->
+    potential (step rc cf s e) <= potential s.
+  Proof.
+    intros s e HD HL. unfold potential. destruct e as [d a pid lp r dl hs | i | i].
+    - cbn [step s_ctrl s_threads]. rewrite cnt_app_one.
+      assert (E : P (new_thread d a pid lp r dl hs) = false).
+      { unfold P, passed; cbn. apply andb_false_r. }
+      rewrite E; cbn; lia.
+    - unfold step in *. destruct (nth_error (s_threads s) i) as [t|] eqn:Ht; [|lia].
+      destruct (run_thread rc cf (s_ctrl s) t) as [[c' t'] k0] eqn:Hr.
+      cbn [s_ctrl s_threads] in *.
+      pose proof (cnt_upd _ P _ _ _ t' Ht) as HC.
+      assert (HDt : defer_wf t) by (rewrite Forall_forall in HD; apply HD; eapply nth_error_In; eauto).
+      apply run_thread_tstep in Hr. inversion Hr; subst; clear Hr; cbn [s_ctrl s_threads].
+      + lia.
+      + rewrite P_np in HC by discriminate. cbn [b2n] in HC; lia.
+      + pose proof (P_other t (IDefer o) (o :: t_defer t) (next_out t) H H0 eq_refl eq_refl). lia.
+      + destruct (op_eqb o OpSave) eqn:Eo; [apply op_eqb_eq in Eo; subst o|].
+        * apply exec_op_save in H1; destruct H1 as [[_ [-> [_ Hne]]]|[-> [-> [_ _]]]].
+          -- destruct e as [e0|]; [|congruence]. rewrite P_np in HC by discriminate. cbn [b2n] in HC; lia.
+          -- rewrite P_as in HC by auto.
+             pose proof (cnt_save (s_ctrl s) t) as HS.
+             destruct (sel t) eqn:Es.
+             ++ assert (Hp : passed m t = true).
+                { apply passed_at_save; auto. pose proof (sel_dir _ Es) as Hd.
+                  rewrite Hd in *. apply m_before_save; auto. }
+                assert (Ept : P t = true) by (unfold P; rewrite Es, Hp; reflexivity).
+                rewrite Ept in HC. cbn [b2n] in HC, HS. lia.
+             ++ assert (Ept : P t = false) by (unfold P; rewrite Es; reflexivity).
+                rewrite Ept in HC. cbn [b2n] in HC, HS. lia.
+        * assert (Hns : o <> OpSave) by (intros ->; rewrite op_eqb_refl in Eo; discriminate).
+          pose proof (exec_op_not_save _ _ _ _ _ _ _ _ H1 Hns) as [_ Hb].
+          rewrite (cnt_bound_only _ _ Hb).
+          destruct (op_eqb m o) eqn:Em.
+          -- apply op_eqb_eq in Em; subst o. destruct e as [e0|].
+             ++ rewrite P_np in HC by discriminate. cbn [b2n] in HC; lia.
+             ++ destruct (sel t) eqn:Es.
+                ** (* passing the check needs count < limit: impossible here *)
+                   pose proof (cnt_pass _ _ _ _ H1 Es). lia.
+                ** rewrite P_nosel in HC by auto.
+                   assert (Ept : P t = false) by (unfold P; rewrite Es; reflexivity).
+                   rewrite Ept in HC. cbn [b2n] in HC; lia.
+          -- assert (Hx : item_is m (IOp o) = false) by exact Em.
+             assert (Hy : item_is OpSave (IOp o) = false).
+             { cbn. destruct o; try reflexivity. congruence. }
+             pose proof (P_other t (IOp o) (t_defer t)
+                           match e with Some e1 => Failed e1 | None => next_out t end H H0 Hx Hy). lia.
+      + assert (Ho : o = OpRemoveConnecting).
+        { unfold defer_wf in HDt. rewrite H0 in HDt. inversion HDt; auto. }
+        subst o.
+        pose proof (exec_op_not_save _ _ _ _ _ _ _ _ H1 ltac:(discriminate)) as [_ Hb].
+        rewrite (cnt_bound_only _ _ Hb).
+        rewrite P_np in HC by auto. cbn [b2n] in HC; lia.
+    - unfold step in *. destruct (nth_error (s_live s) i) as [k0|]; [|lia].
+      cbn [s_ctrl s_threads] in *. pose proof (cnt_close (s_ctrl s) k0). lia.
+  Qed.
 End Counting.
 
 (** ** instance 1: entries of one bound set against MaxConnInBound / MaxConnOutBound *)
@@ -1113,3 +1172,232 @@ Lemma nv_facts :
 Proof.
   vm_compute; auto.
 Qed.
+
+(** * 9. what the pre-handshake check does guarantee (outside the finding class)
+
+    An attempt whose limit check runs while the recorded count of its direction (or of its IP) is
+    already at or over the limit is refused and is never recorded; while the count stays at or
+    over the limit, (recorded + attempts that have passed the check and not yet saved) cannot
+    grow, so the count exceeds the limit by at most the attempts that were in flight past their
+    check when the last slot was taken. *)
+
+Lemma dwf_step : forall rc cf s e, Forall defer_wf (s_threads s) -> Forall defer_wf (s_threads (step rc cf s e)).
+Proof.
+  intros rc cf s e HD. destruct e as [d a pid lp r dl hs | i | i].
+  - cbn [step s_threads]. apply Forall_app; split; auto. constructor; [constructor|constructor].
+  - unfold step. destruct (nth_error (s_threads s) i) as [t|] eqn:Ht; auto.
+    destruct (run_thread rc cf (s_ctrl s) t) as [[c' t'] k0] eqn:Hr. cbn [s_threads].
+    assert (HDt : defer_wf t) by (rewrite Forall_forall in HD; apply HD; eapply nth_error_In; eauto).
+    apply Forall_upd; auto.
+    apply run_thread_tstep in Hr. inversion Hr; subst; clear Hr; auto.
+    + unfold defer_wf; cbn. constructor; auto. eapply deferred_is_remove; eauto.
+    + unfold defer_wf in *; cbn. rewrite H0 in HDt. inversion HDt; auto.
+  - unfold step. destruct (nth_error (s_live s) i); auto.
+Qed.
+
+Lemma dwf_trace : forall rc cf sched s, Forall defer_wf (s_threads s) ->
+  Forall (fun s' => Forall defer_wf (s_threads s')) (trace rc cf s sched).
+Proof.
+  induction sched as [|e r IH]; intros s H; cbn [trace]; constructor; auto using dwf_step.
+Qed.
+
+Lemma dwf_run : forall rc cf sched, Forall defer_wf (s_threads (run rc cf sched)).
+Proof.
+  intros rc cf sched; unfold run.
+  assert (G : forall l s, Forall defer_wf (s_threads s) -> Forall defer_wf (s_threads (fold_left (step rc cf) l s))).
+  { induction l; intros s H; cbn; auto using dwf_step. }
+  apply G; constructor.
+Qed.
+
+(** attempts of direction d that have passed isBoundFull and still have savePeer ahead *)
+Definition past_full (s : sys) (d : dir) : N :=
+  N.of_nat (cnt (fun t => dir_eqb (t_dir t) d && passed OpFull t) (s_threads s)).
+(** inbound attempts from [ip] that have passed the per-IP test and still have savePeer ahead *)
+Definition past_ipcheck (s : sys) (ip : N) : N :=
+  N.of_nat (cnt (fun t => (dir_eqb (t_dir t) Inbound && (fst (t_addr t) =? ip)) && passed OpIpCount t) (s_threads s)).
+
+Lemma at_limit_step_total : forall rc cf d s e, Forall defer_wf (s_threads s) ->
+  limit_of cf d <= recorded s d ->
+  recorded (step rc cf s e) d + past_full (step rc cf s e) d <= recorded s d + past_full s d.
+Proof.
+  intros rc cf d s e HD HL.
+  apply (potential_step rc cf d (fun t => dir_eqb (t_dir t) d)) with (m := OpFull)
+    (cntf := fun c => bounds_count c d) (L := limit_of cf d); auto.
+  - intros t H; apply dir_eqb_eq; exact H.
+  - intros c c' H; unfold bounds_count; rewrite H; reflexivity.
+  - intros c t; unfold bounds_count. destruct (dir_eq_dec (t_dir t) d) as [E|E].
+    + rewrite E, save_peer_bound_same, dir_eqb_refl; cbn [b2n].
+      pose proof (aset_add_length_le (t_addr t) (bound c d)); lia.
+    + rewrite save_peer_bound_other by auto. lia.
+  - intros c t c' k0 H Hs. apply dir_eqb_eq in Hs. apply exec_op_full in H; destruct H as [_ H].
+    rewrite <- Hs. apply is_bound_full_pass; auto.
+  - intros c k0; unfold bounds_count. destruct (dir_eq_dec (k_dir k0) d) as [E|E].
+    + rewrite <- E, remove_peer_bound_same. unfold aset_remove.
+      pose proof (filter_length_le _ (fun b => negb (addr_eqb (k_addr k0) b)) (bound c (k_dir k0))); lia.
+    + rewrite remove_peer_bound_other by auto; lia.
+  - intros pc H; apply (save_positions_spec _ _ (prog_full_before_save d) pc H).
+Qed.
+
+Lemma at_limit_step_ip : forall rc cf ip s e, Forall defer_wf (s_threads s) ->
+  max_per_ip cf <= recorded_ip s ip ->
+  recorded_ip (step rc cf s e) ip + past_ipcheck (step rc cf s e) ip <= recorded_ip s ip + past_ipcheck s ip.
+Proof.
+  intros rc cf ip s e HD HL.
+  apply (potential_step rc cf Inbound (fun t => dir_eqb (t_dir t) Inbound && (fst (t_addr t) =? ip)))
+    with (m := OpIpCount) (cntf := fun c => inbound_count_with_ip c ip) (L := max_per_ip cf); auto.
+  - intros t H; apply andb_true_iff in H; destruct H as [H _]; apply dir_eqb_eq; exact H.
+  - intros c c' H; unfold inbound_count_with_ip. change (c_in c') with (bound c' Inbound).
+    rewrite H; reflexivity.
+  - intros c t; unfold inbound_count_with_ip. destruct (t_dir t) eqn:E.
+    + change (c_in (fst (save_peer c Inbound (t_addr t) (t_pid t) (t_lport t))))
+        with (bound (fst (save_peer c Inbound (t_addr t) (t_pid t) (t_lport t))) Inbound).
+      rewrite save_peer_bound_same. cbn [dir_eqb andb bound].
+      pose proof (filter_aset_add_length (fun a => fst a =? ip) (t_addr t) (c_in c)) as HF.
+      cbn beta in HF. unfold b2n, addr in *. destruct (fst (t_addr t) =? ip); lia.
+    + change (c_in (fst (save_peer c Outbound (t_addr t) (t_pid t) (t_lport t))))
+        with (bound (fst (save_peer c Outbound (t_addr t) (t_pid t) (t_lport t))) Inbound).
+      rewrite save_peer_bound_other by discriminate. cbn [bound]. lia.
+  - intros c t c' k0 H Hs. apply andb_true_iff in Hs; destruct Hs as [_ Hs]. apply N.eqb_eq in Hs.
+    apply exec_op_ipcount in H; destruct H as [_ H]. rewrite <- Hs. apply ip_full_cmp_pass; auto.
+  - intros c k0; unfold inbound_count_with_ip. change (c_in (remove_peer c k0)) with (bound (remove_peer c k0) Inbound).
+    destruct (dir_eq_dec (k_dir k0) Inbound) as [E|E].
+    + rewrite <- E at 1. rewrite remove_peer_bound_same, E. unfold aset_remove; cbn [bound].
+      pose proof (filter_filter_length_le _ (fun a => fst a =? ip) (fun b => negb (addr_eqb (k_addr k0) b)) (c_in c)); unfold addr in *; lia.
+    + rewrite remove_peer_bound_other by auto; cbn [bound]; lia.
+  - intros pc H; apply (save_positions_spec _ _ prog_ipcount_before_save pc H).
+Qed.
+
+(** trace form: from a state s where the count is at/over the limit, as long as it stays so,
+    recorded + past-the-check never exceeds its value at s *)
+Lemma at_limit_trace : forall rc cf (rec past : sys -> N) (L : N),
+  (forall s e, Forall defer_wf (s_threads s) -> L <= rec s -> rec (step rc cf s e) + past (step rc cf s e) <= rec s + past s) ->
+  forall sched s B, Forall defer_wf (s_threads s) -> L <= rec s -> rec s + past s <= B ->
+    Forall (fun s' => L <= rec s') (trace rc cf s sched) ->
+    Forall (fun s' => rec s' + past s' <= B) (trace rc cf s sched).
+Proof.
+  intros rc cf rec past L Hstep. induction sched as [|e r IH]; intros s B HD HL HB HW; cbn [trace] in *; [constructor|].
+  inversion HW; subst. pose proof (Hstep s e HD HL).
+  constructor; [lia|]. apply IH; auto using dwf_step. lia.
+Qed.
+
+Theorem at_limit_no_growth : forall rc cf sched1 sched2 d,
+  let s := run rc cf sched1 in
+  limit_of cf d <= recorded s d ->
+  Forall (fun s' => limit_of cf d <= recorded s' d) (trace rc cf s sched2) ->
+  Forall (fun s' => recorded s' d <= recorded s d + past_full s d) (trace rc cf s sched2).
+Proof.
+  intros rc cf sched1 sched2 d s HL HW.
+  pose proof (at_limit_trace rc cf (fun s => recorded s d) (fun s => past_full s d) (limit_of cf d)
+                (fun s0 e => at_limit_step_total rc cf d s0 e) sched2 s (recorded s d + past_full s d)
+                (dwf_run rc cf sched1) HL (N.le_refl _) HW) as T.
+  eapply Forall_impl; [|exact T]. cbn beta; intros; lia.
+Qed.
+
+Theorem at_limit_no_growth_ip : forall rc cf sched1 sched2 ip,
+  let s := run rc cf sched1 in
+  max_per_ip cf <= recorded_ip s ip ->
+  Forall (fun s' => max_per_ip cf <= recorded_ip s' ip) (trace rc cf s sched2) ->
+  Forall (fun s' => recorded_ip s' ip <= recorded_ip s ip + past_ipcheck s ip) (trace rc cf s sched2).
+Proof.
+  intros rc cf sched1 sched2 ip s HL HW.
+  pose proof (at_limit_trace rc cf (fun s => recorded_ip s ip) (fun s => past_ipcheck s ip) (max_per_ip cf)
+                (fun s0 e => at_limit_step_ip rc cf ip s0 e) sched2 s (recorded_ip s ip + past_ipcheck s ip)
+                (dwf_run rc cf sched1) HL (N.le_refl _) HW) as T.
+  eapply Forall_impl; [|exact T]. cbn beta; intros; lia.
+Qed.
+
+(** the check itself: at or over the limit it refuses (needs the source's operators to mean >=) *)
+Lemma full_check_refuses : forall rc cf c t, limit_of cf (t_dir t) <= bounds_count c (t_dir t) ->
+  exec_op rc cf c t OpFull = (c, Some EBoundFull, None).
+Proof.
+  intros rc cf c t H; cbn [exec_op]. unfold is_bound_full.
+  destruct (t_dir t); cbn [limit_of] in H; unfold full_cmp_in, full_cmp_out;
+    apply N.leb_le in H; rewrite H; reflexivity.
+Qed.
+
+Lemma ip_check_refuses : forall rc cf c t, max_per_ip cf <= inbound_count_with_ip c (fst (t_addr t)) ->
+  exec_op rc cf c t OpIpCount = (c, Some EIpFull, None).
+Proof.
+  intros rc cf c t H; cbn [exec_op]. unfold ip_full_cmp. apply N.leb_le in H; rewrite H; reflexivity.
+Qed.
+
+(** a call that has failed stays failed, records nothing and leaves the bound sets alone *)
+Lemma failed_stable : forall rc cf s ev i t e, nth_error (s_threads s) i = Some t -> t_out t = Failed e ->
+  exists t', nth_error (s_threads (step rc cf s ev)) i = Some t' /\ t_out t' = Failed e.
+Proof.
+  intros rc cf s ev i t e Hi Ho. destruct ev as [d a pid lp r dl hs | j | j].
+  - cbn [step s_threads]. exists t; split; auto. rewrite nth_error_app1; auto.
+    apply nth_error_Some; congruence.
+  - unfold step. destruct (nth_error (s_threads s) j) as [tj|] eqn:Hj; [|eauto].
+    destruct (run_thread rc cf (s_ctrl s) tj) as [[c' t'] k0] eqn:Hr. cbn [s_threads].
+    destruct (Nat.eq_dec j i) as [->|N].
+    + rewrite Hi in Hj; inversion Hj; subst tj. exists t'; split; [eapply upd_nth_same; eauto|].
+      apply run_thread_tstep in Hr. inversion Hr; subst; auto; congruence.
+    + exists t; split; auto. rewrite upd_nth_other; auto.
+  - unfold step. destruct (nth_error (s_live s) j); eauto.
+Qed.
+
+Lemma failed_forever : forall rc cf sched s i t e, nth_error (s_threads s) i = Some t -> t_out t = Failed e ->
+  Forall (fun s' => exists t', nth_error (s_threads s') i = Some t' /\ t_out t' = Failed e) (trace rc cf s sched).
+Proof.
+  induction sched as [|ev r IH]; intros s i t e Hi Ho; cbn [trace]; [constructor|].
+  destruct (failed_stable rc cf s ev i t e Hi Ho) as [t' [H1 H2]].
+  constructor; eauto.
+Qed.
+
+Lemma not_pending_records_nothing : forall rc cf c t c' t' k, t_out t <> Pending -> defer_wf t ->
+  run_thread rc cf c t = (c', t', k) -> k = None /\ (forall d, bound c' d = bound c d).
+Proof.
+  intros rc cf c t c' t' k Hn HD Hr. apply run_thread_tstep in Hr. inversion Hr; subst; try congruence; auto.
+  split; auto. unfold defer_wf in HD. rewrite H0 in HD. inversion HD; subst.
+  apply (exec_op_not_save _ _ _ _ _ _ _ _ H1); discriminate.
+Qed.
+
+(** the step that runs a refusing check turns the attempt into a failed one *)
+Lemma refused_step : forall rc cf s i t o e, nth_error (s_threads s) i = Some t -> t_out t = Pending ->
+  nth_error (prog_of (t_dir t)) (t_pc t) = Some (IOp o) ->
+  exec_op rc cf (s_ctrl s) t o = (s_ctrl s, Some e, None) ->
+  exists t', nth_error (s_threads (step rc cf s (Run i))) i = Some t' /\ t_out t' = Failed e
+             /\ s_ctrl (step rc cf s (Run i)) = s_ctrl s /\ s_live (step rc cf s (Run i)) = s_live s.
+Proof.
+  intros rc cf s i t o e Hi Ho Hn Hx. unfold step. rewrite Hi. unfold run_thread. rewrite Ho, Hn, Hx.
+  cbn [s_threads s_ctrl s_live]. eexists; split; [eapply upd_nth_same; eauto|]. cbn. auto.
+Qed.
+
+Theorem started_at_limit_never_recorded : forall rc cf sched1 sched2 i t,
+  let s := run rc cf sched1 in
+  nth_error (s_threads s) i = Some t -> t_out t = Pending ->
+  (   (nth_error (prog_of (t_dir t)) (t_pc t) = Some (IOp OpFull) /\ limit_of cf (t_dir t) <= recorded s (t_dir t))
+   \/ (nth_error (prog_of (t_dir t)) (t_pc t) = Some (IOp OpIpCount) /\ max_per_ip cf <= recorded_ip s (fst (t_addr t)))) ->
+  Forall (fun s' => exists t' e, nth_error (s_threads s') i = Some t' /\ t_out t' = Failed e
+                                 /\ (e = EBoundFull \/ e = EIpFull))
+         (trace rc cf s (Run i :: sched2))
+  /\ s_ctrl (step rc cf s (Run i)) = s_ctrl s /\ s_live (step rc cf s (Run i)) = s_live s.
+Proof.
+  intros rc cf sched1 sched2 i t s Hi Ho H.
+  assert (G : exists e, (e = EBoundFull \/ e = EIpFull) /\
+                        exists o, nth_error (prog_of (t_dir t)) (t_pc t) = Some (IOp o) /\
+                                  exec_op rc cf (s_ctrl s) t o = (s_ctrl s, Some e, None)).
+  { destruct H as [[Hn HL]|[Hn HL]].
+    - exists EBoundFull; split; auto. exists OpFull; split; auto. apply full_check_refuses; exact HL.
+    - exists EIpFull; split; auto. exists OpIpCount; split; auto. apply ip_check_refuses; exact HL. }
+  destruct G as [e [He [o [Hn Hx]]]].
+  destruct (refused_step rc cf s i t o e Hi Ho Hn Hx) as [t' [H1 [H2 [H3 H4]]]].
+  split; [|auto]. cbn [trace]. constructor.
+  - exists t', e; auto.
+  - pose proof (failed_forever rc cf sched2 _ i t' e H1 H2) as F.
+    eapply Forall_impl; [|exact F]. cbn beta. intros a [t2 [A B]]; exists t2, e; auto.
+Qed.
+
+(** an over-limit state (the inbound witness: limit 1, two recorded) followed by three further
+    sequential attempts: all refused at isBoundFull, the count does not move *)
+Definition ov_sched : list ev :=
+  w_sched_in ++ [Spawn Inbound (3, 5003) 13 20338 true true true] ++ repeat (Run 2) 9
+             ++ [Spawn Inbound (1, 5004) 14 20338 true true true] ++ repeat (Run 3) 9
+             ++ [Spawn Inbound (101, 5005) 15 20338 true true true] ++ repeat (Run 4) 9.
+
+Lemma ov_facts :
+  recorded (run false w_cfg_in w_sched_in) Inbound = 2 /\
+  map t_out (s_threads (run false w_cfg_in ov_sched)) = [Done; Done; Failed EBoundFull; Failed EBoundFull; Failed EBoundFull] /\
+  recorded (run false w_cfg_in ov_sched) Inbound = 2 /\ live_count (run false w_cfg_in ov_sched) Inbound = 2.
+Proof. vm_compute; auto. Qed.
